@@ -285,6 +285,14 @@ func constraintSrc(c string, r *renderer) string {
 		return "~float32 | ~float64"
 	case c == "ubytes":
 		return "~string | ~[4]byte"
+	case c == "cmpunion": // a term-less named interface ahead of the union
+		return "interface{ comparable; ~int | ~string }"
+	case c == "unioncmp":
+		return "interface{ ~int | ~string; comparable }"
+	case c == "localkey":
+		return "LocalKey"
+	case c == "markerunion":
+		return "interface{ LocalMarker; ~int64 }"
 	case strings.HasPrefix(c, "pkgnum:"):
 		var p int
 		fmt.Sscanf(c, "pkgnum:%d", &p)
@@ -293,6 +301,10 @@ func constraintSrc(c string, r *renderer) string {
 		var p int
 		fmt.Sscanf(c, "pkgiface:%d", &p)
 		return r.qual(p) + "I"
+	case strings.HasPrefix(c, "pkgkey:"):
+		var p int
+		fmt.Sscanf(c, "pkgkey:%d", &p)
+		return r.qual(p) + "Key"
 	}
 	return c
 }
@@ -305,7 +317,7 @@ func (s *SrcPkg) Files() map[string]string {
 	files := map[string]string{}
 	var main strings.Builder
 	fmt.Fprintf(&main, "package %s\n\n", s.Name)
-	main.WriteString("type LocalT struct{ V int }\n\ntype LocalC interface{ Len() int }\n\n")
+	main.WriteString("type LocalT struct{ V int }\n\ntype LocalC interface{ Len() int }\n\ntype LocalMarker interface{}\n\ntype LocalKey interface {\n\tcomparable\n\t~int | ~string\n}\n\n")
 	main.WriteString(s.Extra)
 	n := 0
 	for _, it := range s.Ifaces {
@@ -364,6 +376,11 @@ type G[X any] struct{ V X }
 type I interface{ Do(T) U }
 
 type Num interface{ ~int | ~int64 }
+
+type Key interface {
+	comparable
+	~uint64 | ~string
+}
 
 // alias declarations (go1.24: also generic ones, with non-named targets)
 type A = T
